@@ -71,8 +71,10 @@ func add(
 			if target.IsLocal() {
 				target.EvAdd(e, names, nil)
 			} else {
-				// avoid network blocking
-				go target.EvAdd(e, names, nil)
+				// avoid network blocking, but keep the order of piped mutations
+				forkOrdered(target, func() {
+					target.EvAdd(e, names, nil)
+				})
 			}
 		} else {
 			// TODO source tx ID missings
@@ -147,8 +149,10 @@ func remove(
 			if target.IsLocal() {
 				target.EvRemove1(e, targetState, nil)
 			} else {
-				// avoid network blocking
-				go target.EvRemove1(e, targetState, nil)
+				// avoid network blocking, but keep the order of piped mutations
+				forkOrdered(target, func() {
+					target.EvRemove1(e, targetState, nil)
+				})
 			}
 		} else {
 			// TODO source tx ID missing
